@@ -202,7 +202,7 @@ func (g *lgen) gen(h uint64) *ltx {
 	}
 	gp := uint32(1)
 	if r.Intn(8) == 0 {
-		gp = uint32(1 + r.Intn(4))
+		gp = uint32(r.Intn(5)) // including 0: DeliverTx has no gas-price floor
 	}
 	kk := r.Intn(16)
 	if len(g.tokens) < 2 && r.Intn(3) == 0 {
